@@ -37,8 +37,13 @@ EXPLANATION = (
     'the same (tprob, sources, sinks), reactive populations are pi*q+*q- '
     'normalised by their own sum; (D4) no store (including augmented '
     'assignment) reaches tprob or the caller\'s populations; (D5) the '
-    'committor boundary pins shared with C07. Conservation identities are not '
-    'decided.')
+    'committor boundary pins shared with C07, and along reactive_fluxes / '
+    'reactive_populations -> _get_data_from_tprob -> committors -> _I_m_Q no '
+    'operation that only one container kind defines (scipy.sparse-only methods; '
+    'len(), ndarray-only methods, asarray-coercing numpy functions) is evaluated '
+    'for a matrix of the other kind (issparse/isinstance/hasattr tests and '
+    '`p is None` tests resolved with the arguments of the calls on that path). '
+    'Conservation identities are not decided.')
 
 
 # ---------------------------------------------------------------------------
@@ -1505,6 +1510,373 @@ def d3_hidden_state(ck, mods):
     ck.floor(rule, n_scanned, 4, 'functions scanned for results read from module state')
 
 
+# ---------------------------------------------------------------------------
+# D5 (containers): the property quantifies over dense AND sparse transition
+# matrices, so along the path reactive_fluxes / reactive_populations ->
+# _get_data_from_tprob -> committors -> _I_m_Q every operation that only ONE
+# of the two container kinds defines must be evaluated only for that kind:
+#  * a method only scipy.sparse containers have (.tolil(), .multiply(), ...)
+#    on a value that is an ndarray for dense input raises AttributeError;
+#  * len() / an ndarray-only method / an asarray-coercing numpy function on a
+#    value that is a scipy.sparse container for sparse input raises TypeError
+#    (len: "sparse array length is ambiguous") or AttributeError.
+# Whether such an operation is evaluated for the wrong kind is decided from
+# the conditions that hold where it stands: issparse / isinstance / hasattr
+# tests on the matrix (dominating if-branches, conditional expressions,
+# short-circuit operands) and `p is None` tests on a parameter, the latter
+# evaluated with the arguments of the calls made on this path (a helper's
+# `if n_states is None: n_states = len(tprob)` is never evaluated when every
+# caller passes the number of states).  Anything else that conditions the
+# operation -> not decided (incomplete), never a violation.
+# (tables: scipy 1.18 / numpy 2.4, hasattr on ndarray, csr/lil/csc/coo _matrix and _array)
+
+SPARSE_RESULT_METHODS = (CONVERSIONS - {'copy'}) | {'multiply', 'asformat', 'maximum', 'minimum', 'power', 'getrow', 'getcol', 'getH', 'asfptype'}
+SPARSE_ONLY_METHODS = SPARSE_RESULT_METHODS | SPARSE_DENSIFY | {'getnnz', 'setdiag', 'count_nonzero', 'eliminate_zeros', 'sum_duplicates'}
+DENSE_ONLY_METHODS = {'flatten', 'ravel', 'fill', 'cumsum', 'cumprod', 'any', 'all', 'argsort', 'sort', 'squeeze', 'tolist', 'tobytes', 'item',
+                      'prod', 'std', 'var', 'take', 'put', 'repeat', 'swapaxes', 'searchsorted', 'round', 'clip', 'view'}
+KIND_KEEPING_METHODS = {'copy', 'transpose', 'astype', 'conj', 'conjugate'}
+SPARSE_CTOR_SUFFIXES = ('_matrix', '_array')
+SPARSE_CTOR_PREFIXES = ('csr', 'csc', 'lil', 'coo', 'dok', 'bsr', 'dia')
+D5_PATH = [(TP, 'reactive_fluxes', True), (TP, 'reactive_populations', True), (TP, HELPER, False), (CO, 'committors', False), (CO, '_I_m_Q', False)]
+
+
+def _is_sparse_ctor(call):
+    last = (call_name(call) or '').split('.')[-1]
+    return last.endswith(SPARSE_CTOR_SUFFIXES) and last.split('_')[0] in SPARSE_CTOR_PREFIXES
+
+
+class _PathFn:
+    """One function on the committor path: its matrix parameter (first
+    positional), the container kinds that parameter can have, and the call
+    sites [(caller _PathFn, call, {callee parameter: argument})] on the path."""
+
+    def __init__(self, mod, fn, entry):
+        self.mod, self.fn, self.entry = mod, fn, entry
+        self.name = fn.name
+        self.fi = finfo(mod, fn)
+        self.P = params(fn)
+        self.matrix = self.P[0] if self.P else None
+        self.co = Containers(self.fi, self.matrix)
+        self.sites = []
+        self.parent = {}
+        for p in ast.walk(fn):
+            for c in ast.iter_child_nodes(p):
+                self.parent[c] = p
+
+    # -- container kinds -----------------------------------------------------
+    def site_sparse(self, site):
+        """The matrix argument of this call can be a scipy.sparse container."""
+        caller, call, b = site
+        a = b.get(self.matrix)
+        return a is not None and caller.param_sparse() and caller.co.kind(a) == 'sparse'
+
+    def site_dense(self, site):
+        caller, call, b = site
+        a = b.get(self.matrix)
+        if a is None or not caller.param_dense():
+            return False
+        if caller.guard_of(caller.conditions(call)[0]) == 'sparse':
+            return False
+        return caller.may_dense(a) is True
+
+    def param_sparse(self):
+        return self.entry or any(self.site_sparse(s) for s in self.sites)
+
+    def param_dense(self):
+        return self.entry or any(self.site_dense(s) for s in self.sites)
+
+    def related(self, name_node):
+        """name_node (possibly a copy made by xval) names the matrix or a container derived from it."""
+        o = getattr(name_node, '_orig', name_node)
+        if not isinstance(o, ast.Name):
+            return False
+        try:
+            if self.co.kind(o, use_guard=False) == 'sparse':
+                return True
+            return o.id == self.matrix and 'PARAM' in self.fi.defs_of_use(o)
+        except Exception:
+            return False
+
+    def may_dense(self, e, depth=8):
+        """True: e is a numpy array for some admitted (dense) input; False: it
+        never is (a scipy.sparse container whenever it is evaluated without an
+        exception); None: not known."""
+        fi = self.fi
+        if depth <= 0 or e is None:
+            return None
+        if isinstance(e, ast.Name):
+            try:
+                defs = fi.defs_of_use(e)
+            except Exception:
+                return None
+            res = []
+            for d in defs:
+                if d == 'PARAM':
+                    res.append(True if (e.id == self.matrix and self.param_dense()) else None)
+                elif isinstance(d, (ast.Assign, ast.AnnAssign)):
+                    v = fi.def_value(d, e.id)
+                    if v is not None and self.guard_of(self.conditions(v)[0]) == 'sparse':
+                        res.append(False)       # bound only where the matrix is sparse
+                    else:
+                        res.append(self.may_dense(v, depth - 1))
+                else:
+                    res.append(None)
+            if True in res:
+                return True
+            return False if res and all(r is False for r in res) else None
+        if isinstance(e, ast.Attribute) and e.attr == 'T':
+            return self.may_dense(e.value, depth - 1)
+        if isinstance(e, ast.IfExp):
+            a, b = self.may_dense(e.body, depth - 1), self.may_dense(e.orelse, depth - 1)
+            return True if True in (a, b) else False if (a is False and b is False) else None
+        if isinstance(e, ast.Call):
+            if _is_sparse_ctor(e):
+                return False
+            if isinstance(e.func, ast.Attribute) and not (isinstance(e.func.value, ast.Name) and e.func.value.id in NP_MODS + ('copy', 'sparse', 'scipy')):
+                if e.func.attr in SPARSE_RESULT_METHODS:
+                    return False
+                if e.func.attr in KIND_KEEPING_METHODS:
+                    return self.may_dense(e.func.value, depth - 1)
+                return None
+            if (call_name(e) or '') in ('copy.copy', 'copy.deepcopy') and e.args:
+                return self.may_dense(e.args[0], depth - 1)
+        return None
+
+    # -- conditions ----------------------------------------------------------
+    def conditions(self, node):
+        """([(test, polarity)], opaque): the tests known to hold whenever node
+        is evaluated - dominating if-branches, enclosing conditional
+        expressions and short-circuit operands; opaque names an enclosing
+        construct whose effect on reachability is not modelled."""
+        fi = self.fi
+        conds, opaque = [], None
+        st = fi.stmt(node)
+        if st is None:
+            return conds, 'statement not found'
+        for a in fi.cfg.nodes:
+            if isinstance(a, Assume) and fi.cfg.dominates(a, st):
+                conds.append((a.test, a.polarity))
+        child, p = node, self.parent.get(node)
+        while p is not None and p is not self.fn:
+            if isinstance(p, ast.IfExp):
+                if child is p.body:
+                    conds.append((p.test, True))
+                elif child is p.orelse:
+                    conds.append((p.test, False))
+            elif isinstance(p, ast.BoolOp):
+                i = next((k for k, v in enumerate(p.values) if v is child), 0)
+                conds += [(v, isinstance(p.op, ast.And)) for v in p.values[:i]]
+            elif isinstance(p, (ast.ListComp, ast.SetComp, ast.DictComp, ast.GeneratorExp, ast.Lambda, ast.FunctionDef, ast.AsyncFunctionDef, ast.ClassDef)):
+                opaque = opaque or 'inside a %s' % type(p).__name__
+            elif isinstance(p, (ast.For, ast.AsyncFor, ast.While)) and child is not getattr(p, 'iter', None):
+                opaque = opaque or 'inside a loop'
+            elif isinstance(p, ast.Try) and p.handlers and any(child is s for s in p.body):
+                opaque = opaque or 'inside a try block with handlers'
+            elif isinstance(p, ast.ExceptHandler):
+                opaque = opaque or 'inside an exception handler'
+            child, p = p, self.parent.get(p)
+        return conds, opaque
+
+    def atoms(self, conds):
+        """Flatten conditions into atoms ('kind', 'sparse'|'dense') /
+        ('none', parameter, must_be_none) / ('const', holds) / ('unknown', text)."""
+        out = []
+        for test, pol in conds:
+            try:
+                t = xval(self.fi, test)
+            except Exception:
+                t = test
+            cj = conjuncts(t, pol)
+            if cj is None:
+                out.append(('unknown', u(test)[:80]))
+                continue
+            for c in cj:
+                out.append(self._atom(c))
+        return out
+
+    def _atom(self, c):
+        if isinstance(c, Cmp):
+            for a, b in ((c.lhs, c.rhs), (c.rhs, c.lhs)):
+                o = getattr(a, '_orig', a)
+                if isinstance(a, ast.Name) and _none(b) and c.op in (ast.Is, ast.IsNot) and a.id in self.P:
+                    try:
+                        if self.fi.defs_of_use(o) == {'PARAM'}:
+                            return ('none', a.id, c.op is ast.Is)
+                    except Exception:
+                        pass
+            return ('unknown', repr(c)[:80])
+        _, e, pol = c
+        if isinstance(e, ast.Constant):
+            return ('const', bool(e.value) == pol)
+        if isinstance(e, ast.Call) and not e.keywords:
+            last = (call_name(e) or '').split('.')[-1]
+            if last in ('issparse', 'isspmatrix') and len(e.args) == 1 and self.related(e.args[0]):
+                return ('kind', 'sparse' if pol else 'dense')
+            if last == 'hasattr' and len(e.args) == 2 and self.related(e.args[0]) and isinstance(e.args[1], ast.Constant) \
+                    and e.args[1].value in SPARSE_ONLY_METHODS:
+                return ('kind', 'sparse' if pol else 'dense')
+            if last == 'isinstance' and len(e.args) == 2 and self.related(e.args[0]):
+                cls = u(e.args[1])
+                if cls in ('np.ndarray', 'numpy.ndarray', 'ndarray'):
+                    return ('kind', 'dense' if pol else 'sparse')
+                if cls.split('.')[-1] in ('spmatrix', 'sparray') and not isinstance(e.args[1], ast.Tuple):
+                    return ('kind', 'sparse' if pol else 'dense')
+        return ('unknown', u(e)[:80])
+
+    def guard_of(self, conds):
+        """'sparse' / 'dense' if the conditions fix the container kind of the matrix, 'both' if they contradict, else None."""
+        ks = {a[1] for a in self.atoms(conds) if a[0] == 'kind'}
+        return None if not ks else ks.pop() if len(ks) == 1 else 'both'
+
+    # -- None-ness of a parameter for the calls made on this path ---------------
+    def noneness(self, pname, site, depth=4):
+        """'none' / 'notnone' / 'free' (both occur for admitted inputs) / 'unknown'."""
+        from ..core import param_default
+        if site is None:
+            d = param_default(self.fn, pname)
+            return 'free' if (d is not None and _none(d)) else 'unknown'
+        caller, call, b = site
+        a = b.get(pname)
+        if a is None:
+            d = param_default(self.fn, pname)
+            if d is None:
+                return 'unknown'
+            return 'none' if _none(d) else 'notnone' if isinstance(d, ast.Constant) else 'unknown'
+        try:
+            t = xval(caller.fi, a)
+        except Exception:
+            return 'unknown'
+        if isinstance(t, ast.Constant):
+            return 'none' if t.value is None else 'notnone'
+        if match_any(SIZE_FORMS, t) is not None:
+            return 'notnone'
+        o = getattr(t, '_orig', None)
+        if isinstance(t, ast.Name) and o is not None and depth > 0 and t.id in caller.P:
+            try:
+                is_param = caller.fi.defs_of_use(o) == {'PARAM'}
+            except Exception:
+                is_param = False
+            if is_param:
+                vals = {caller.noneness(t.id, s, depth - 1) for s in (caller.sites if not caller.entry else [None])}
+                if not vals or 'unknown' in vals:
+                    return 'unknown'
+                return vals.pop() if len(vals) == 1 else 'free'
+        return 'unknown'
+
+    def reach(self, atoms, site):
+        """'yes': the None-tests among the atoms can all hold for this call; 'no': one cannot; 'unknown'."""
+        need = {}
+        unknown = False
+        for a in atoms:
+            if a[0] == 'unknown':
+                unknown = True
+            elif a[0] == 'const' and not a[1]:
+                return 'no'
+            elif a[0] == 'none':
+                if need.setdefault(a[1], a[2]) != a[2]:
+                    return 'no'
+        for p, must_none in need.items():
+            v = self.noneness(p, site)
+            if v == 'unknown':
+                unknown = True
+            elif v != 'free' and (v == 'none') != must_none:
+                return 'no'
+        return 'unknown' if unknown else 'yes'
+
+
+def d5_path(ck):
+    fns = []
+    for rel, name, entry in D5_PATH:
+        try:
+            mod = ck.repo.mod(rel)
+        except Exception:
+            continue
+        fn = mod.functions.get(name)
+        if fn is not None:
+            fns.append(_PathFn(mod, fn, entry))
+    for i, callee in enumerate(fns):
+        for caller in fns[:i]:          # callers precede their callees in D5_PATH: the call graph followed here is acyclic
+            for c in calls_in(caller.fn):
+                if (call_name(c) or '').split('.')[-1] == callee.name:
+                    b = bind_args(c, callee.P)
+                    if b is not None:
+                        callee.sites.append((caller, c, b))
+    return fns
+
+
+def d5_containers(ck):
+    rule = 'C08.D5.containers'
+    fns = d5_path(ck)
+    n_ops = 0
+    for pf in fns:
+        if pf.matrix is None:
+            continue
+        for c in walk_local(pf.fn):
+            if not isinstance(c, ast.Call):
+                continue
+            cn = call_name(c) or ''
+            want, x, what = None, None, None
+            if cn == 'len' and len(c.args) == 1 and not c.keywords:
+                want, x, what = 'dense', c.args[0], 'len()'
+            elif '.' in cn and cn.split('.')[0] in NP_MODS and cn.split('.', 1)[1] in NP_NO_SPARSE and c.args:
+                want, x, what = 'dense', c.args[0], 'np.%s()' % cn.split('.', 1)[1]
+            elif isinstance(c.func, ast.Attribute) and not (isinstance(c.func.value, ast.Name) and c.func.value.id in NP_MODS + ('copy', 'sparse', 'scipy', 'warnings')):
+                if c.func.attr in DENSE_ONLY_METHODS:
+                    want, x, what = 'dense', c.func.value, '.%s()' % c.func.attr
+                elif c.func.attr in SPARSE_ONLY_METHODS:
+                    want, x, what = 'sparse', c.func.value, '.%s()' % c.func.attr
+            if want is None:
+                continue
+            if want == 'dense':
+                # defined for ndarrays only: a problem iff the operand can be a scipy.sparse container
+                if not (pf.param_sparse() and pf.co.kind(x, use_guard=False) == 'sparse'):
+                    continue
+            else:
+                # defined for scipy.sparse containers only: a problem iff the operand can be an ndarray
+                if pf.may_dense(x) is not True:
+                    continue
+            n_ops += 1
+            other = 'sparse' if want == 'dense' else 'dense'
+            conds, opaque = pf.conditions(c)
+            atoms = pf.atoms(conds)
+            guard = pf.guard_of(conds)
+            st = pf.fi.stmt(c) or c
+            construct = '%s-only %s applied to the %s-capable `%s`' % ('ndarray' if want == 'dense' else 'scipy.sparse', what, other, u(x)[:60])
+            if want == 'dense':
+                effect = ('%s is defined for numpy arrays only; for a scipy.sparse transition matrix `%s` is a scipy.sparse container '
+                          '(%s) and the call raises - every TPT quantity fails for sparse input'
+                          % (what, u(x)[:60], 'len() of a sparse matrix: TypeError "sparse array length is ambiguous"' if what == 'len()' else 'no such ndarray semantics'))
+            else:
+                effect = ('%s exists on scipy.sparse containers only; for a dense (numpy.ndarray) transition matrix `%s` is an ndarray and the '
+                          'call raises AttributeError - every TPT quantity fails for dense input' % (what, u(x)[:60]))
+            if guard == want:
+                ck.ok(rule, pf.mod, st, '%s: %s' % (pf.name, u(c)[:120]), '%s evaluated only where the matrix is known to be %s' % (what, want))
+                continue
+            if guard == 'both':
+                ck.ok(rule, pf.mod, st, '%s: %s' % (pf.name, u(c)[:120]), 'contradictory container tests: never evaluated')
+                continue
+            # which calls on this path evaluate it with a container of the other kind?
+            sites = [None] if pf.entry else [s for s in pf.sites if (pf.site_sparse(s) if want == 'dense' else pf.site_dense(s))]
+            verdicts = [pf.reach(atoms, s) for s in sites]
+            if not sites or all(v == 'no' for v in verdicts):
+                ck.ok(rule, pf.mod, st, '%s: %s' % (pf.name, u(c)[:120]),
+                      'not evaluated for the calls made on the TPT path (%s)' % ('; '.join('`%s`' % u(t)[:60] for t, _ in conds) or 'no call passes a %s matrix' % other))
+            elif 'yes' in verdicts and not opaque:
+                how = ('it is evaluated exactly when the matrix is NOT %s (`%s`)' % (want, '; '.join('%s%s' % ('' if p else 'not ', u(t)[:60]) for t, p in conds))
+                       if guard == other else
+                       'nothing restricts it to %s matrices%s' % (want, (' (it runs when %s, which holds for the call `%s`)' % (
+                           ' and '.join('`%s%s`' % ('' if p else 'not ', u(t)[:60]) for t, p in conds),
+                           u(next(s for s, v in zip(sites, verdicts) if v == 'yes')[1])[:80])) if (conds and not pf.entry) else ''))
+                ck.bad(rule, pf.mod, st, pf.name, construct, '%s; %s' % (effect, how))
+            else:
+                ck.missing(rule, '%s in %s: whether it is evaluated for a %s matrix is not decided (%s)' % (
+                    u(c)[:80], pf.name, other, opaque or '; '.join(a[1] for a in atoms if a[0] == 'unknown') or 'conditions not resolved for the calls on the path'))
+    ck.floor(rule, len(fns), 4, 'functions on the TPT/committor path scanned for container-specific operations')
+    if not n_ops:
+        ck.ok(rule, fns[0].mod if fns else ck.repo.mod(TP), None, 'TPT path: %s' % ', '.join(f.name for f in fns),
+              'no container-specific operation is applied to a value that can be of the other container kind')
+
+
 def check(ck):
     mod = ck.repo.mod(TP)
     d3_hidden_state(ck, [mod, ck.repo.mod(CO)])
@@ -1524,4 +1896,5 @@ def check(ck):
     co = ck.repo.mod(CO)
     d2_masking(ck, co)
     d3_committors(ck, co)
+    d5_containers(ck)
     return EXPLANATION
